@@ -40,7 +40,7 @@ void operator delete[](void* p, std::size_t) noexcept { std::free(p); }
 static const double TOL_REL = 1e-9, TOL_ABS = 1e-12;   // recomputed error norm vs tolerance (Euler -> quaternion conversion round-off)
 static const double BOUND_SLACK = 1e-6;                // interior-point bound relaxation (Ipopt bound_relax_factor 1e-8 relative; generous)
 static const double REACH_TOL_TIGHT = 5e-3;            // harness misfit (RMS distance / angle / |dq|) for a reachable goal from a nearby start, accuracy 1e-6
-static const double REACH_TOL_DEFAULT = 0.1;           // ... at the default accuracy 1e-3 (only "did not move away": the start misfit is about 0.1)
+static const double REACH_TOL_DEFAULT = 0.05;          // ... at the default accuracy 1e-3 (the start misfit is about 0.1; worst observed 0.0098)
 static const double GOAL_SLACK = 1e-9;
 
 // ---------------------------------------------------------------- instance table (table 0 / 1 of harness/C08.cpp)
@@ -256,7 +256,7 @@ static void runAssemblerCase(verif::Run& run, Sut& S, const Configs& C, const Ca
     // reported norm / goal
     const Real normRep = as.calcCurrentErrorNorm(), goalNow = as.calcCurrentGoal();
     run.expect(normRep <= tol, "assemble-returned-but-calcCurrentErrorNorm-above-tolerance", [&] { return "calcCurrentErrorNorm()=" + verif::fmtd(normRep) + " " + desc; }, rp);
-    run.expect(sameBits(goalRet, goalNow), "assemble-return-value-is-not-the-current-goal", [&] { return "returned " + verif::fmtd(goalRet) + " calcCurrentGoal " + verif::fmtd(goalNow) + " " + desc; }, rp);
+    run.expect(sameBits(goalRet, goalNow), std::string("assemble-return-value-is-not-the-current-goal") + (c.lock == 100 ? "/state-locked-mobilizer" : ""), [&] { return "returned " + verif::fmtd(goalRet) + " calcCurrentGoal " + verif::fmtd(goalNow) + " " + desc; }, rp);
     // locks
     if (lockedBody >= 0) {
         const Vector qa = M.bodies[lockedBody].getQAsVector(s);
@@ -286,13 +286,13 @@ static void runAssemblerCase(verif::Run& run, Sut& S, const Configs& C, const Ca
     if (c.goal) {
         if (feasibleStart) {
             run.count("goal:feasible-start");
-            run.expect(goalRet <= goal0 * (1 + GOAL_SLACK) + 1e-300, "goal-worse-than-at-feasible-start", [&] { return "goal " + verif::fmtd(goal0) + " -> " + verif::fmtd(goalRet) + " " + desc; }, rp);
-            run.residual("misfit-increase-from-feasible-start", (double)(misfit1 - misfit0), 1e-9, where, rp);
+            run.expect(goalRet <= goal0 * (1 + GOAL_SLACK) + 1e-300, std::string("goal-worse-than-at-feasible-start") + (c.lock == 100 ? "/state-locked-mobilizer" : ""), [&] { return "goal " + verif::fmtd(goal0) + " -> " + verif::fmtd(goalRet) + " " + desc; }, rp);
+            run.residual("misfit-increase-from-feasible-start", (double)(misfit1 - misfit0), 1e-9, where, rp, c.lock == 100 ? "state-locked-mobilizer" : "");
         } else run.count(goalRet <= goal0 ? "goal:infeasible-start:not-worse" : "goal:infeasible-start:worse(allowed)");
         const bool reachable = c.bounds != 2;
         if (reachable && c.start == 1) {
             run.count("goal:reachable-near");
-            const std::string sfx = std::string(c.tol ? "accuracy-1e-6" : "default-accuracy") + (degenerate ? "/a-constraint-is-independent-of-the-free-q" : "");
+            const std::string sfx = std::string(c.tol ? "accuracy-1e-6" : "default-accuracy") + (degenerate ? "/a-constraint-is-independent-of-the-free-q" : "") + (c.lock == 100 ? "/state-locked-mobilizer" : "");
             run.residual("misfit-for-reachable-goal(near-start)", (double)misfit1, c.tol ? REACH_TOL_TIGHT : REACH_TOL_DEFAULT, where, rp, sfx);
             if (degenerate) run.count("goal:reachable-near:degenerate-constraint-jacobian");
         }
@@ -374,10 +374,10 @@ int main(int argc, char** argv) {
     int64_t onlyLo = 0, onlyHi = INT64_MAX;
     if (const char* o = getenv("C43_ONLY")) { sscanf(o, "%ld:%ld", &onlyLo, &onlyHi); run.exhaustive = false; }
     run.rule = "E3. systems: the 20 canonical single-constraint systems of the C08 instance tables (quick: table 0 on host tree (i mod 3); thorough: both tables on all three host trees) x quaternion/Euler, and two four-bar loops (Pin links closed by a Ball constraint / by a Rod). q* = generic state (value set seed%3, four-bar: fixed angles) assembled by System::projectQ (1e-10); second feasible configuration from value set seed%3+1. "
-               "Assembler cases: goal {none, Markers on every body (3 each), Markers on two bodies (2 each), OrientationSensors on every body, QValue on a 1-dof coordinate} x weights {all 1, non-uniform marker weights + goal weight 2.5} x lock {none, Assembler::lockMobilizer(Rk) for every k, MobilizedBody::lock on one body} x bounds on a 1-dof coordinate {none, [q*-0.5,q*+0.5], [q*+0.2,q*+0.7]} x start {other feasible configuration, q*+0.05 pattern, q*+0.6 pattern} x tolerance {default 1e-4, accuracy 1e-6 + tolerance 1e-7}; locked mobilizers start at their q* value. "
+               "Assembler cases: goal {none, Markers on every body (3 each), Markers on two bodies (2 each), OrientationSensors on every body, QValue on a 1-dof coordinate} x weights {all 1, non-uniform marker weights + goal weight 2.5} x lock {none, Assembler::lockMobilizer(Rk) for every k, MobilizedBody::lock on one body} x bounds on a 1-dof coordinate {none, [q*-0.5,q*+0.5], [q*+0.2,q*+0.7]} x start {other feasible configuration, q*+0.05 pattern, q*+0.6 pattern} x tolerance {default 1e-4, accuracy 1e-6 + tolerance 1e-7} (quick: non-uniform weights only with the all-body marker and sensor goals; the far start only at the default tolerance); locked mobilizers start at their q* value, bounded coordinates start inside their range. "
                "ObservedPointFitter: stations on every body x start(3) x weights(2). LocalEnergyMinimizer: the same systems with gravity and a spring from Ground to every body x start {other, q*} x tolerance {1e-3, 1e-6}. distinct = distinct tuple; every case is non-trivial (an optimisation is run).";
     run.assumptions = {"continuous values only from fixed tables", "q* and the second feasible configuration are produced by the library's projection and verified by cons::projectState", "exceptions (AssembleFailed, OptimizerFailed) are allowed outcomes and counted",
-        "goal monotonicity is demanded only from a feasible start (the Assembler documents that constraints take precedence)", "a reachable goal must be reached (harness misfit <= 2e-3) only from the nearby start; far starts may end in local minima (counted)",
+        "goal monotonicity is demanded only from a feasible start (the Assembler documents that constraints take precedence)", "a reachable goal must be reached (harness misfit <= 5e-3 at accuracy 1e-6, <= 0.05 at the default accuracy) only from the nearby start; far starts may end in local minima (counted)",
         "locked quaternion mobilizers: rotation kept to 1e-12 (the Assembler works in Euler angles and converts back)", "bounds: 1e-6 slack for interior-point bound relaxation",
         "ObservedPointFitter / LocalEnergyMinimizer have no constraint tolerance parameter: holonomic errors judged against 1e-3"};
 
